@@ -271,7 +271,182 @@ def check_c08(tier, seed):
         on_result=c08_oracle)
 
 
-CHECKS = {"C01": check_c01, "C08": check_c08}
+# ----------------------------------------------------------------------------------------------
+# C05 / C03 / C06 / C07: same machinery, different families and oracles
+# ----------------------------------------------------------------------------------------------
+def pl_oracle(prop):
+    def f(label, text, r):
+        snap_oracle(label, text, r)
+        n = vlib.pl_corr(r, r["opts"].get("pagesize", 1024))
+        c = COUNTERS.setdefault(prop, dict(lifecycle_events_model_vs_library=0, committed_files_decoded=0))
+        c["lifecycle_events_model_vs_library"] += n
+        c["committed_files_decoded"] += len(r.get("snaps") or [])
+    return f
+
+
+def cases_c05(tier, seed):
+    n = 1 if tier == "quick" else 10
+    cases = []
+    for i in range(40 * n):
+        cases.append(("g4 seed=%d" % (seed * 1000 + 500 + i), gen.g4(seed * 1000 + 500 + i)))
+    for i in range(15 * n):
+        cases.append(("g1 seed=%d" % (seed * 1000 + 500 + i), gen.g1(seed * 1000 + 500 + i)))
+    for i in range(20 * n):
+        cases.append(("g2 seed=%d" % (seed * 1000 + 500 + i), gen.g2(seed * 1000 + 500 + i)))
+    for i in range(10 * n):
+        cases.append(("g5 seed=%d" % (seed * 1000 + 500 + i), gen.g5(seed * 1000 + 500 + i)))
+    rng = random.Random(seed + 5)
+    allr = gen.g3_ranges(24, 200, (3, 6, 11, 17))
+    cases += rng.sample(allr, 60 if tier == "quick" else len(allr))
+    return cases
+
+
+def check_c05(tier, seed):
+    return history_property(
+        "C05", tier, seed, cases_c05(tier, seed), opts_c01,
+        "families G4 (bucket deletes at every nesting level in one transaction), G1, G2, G3 (merge / root-collapse "
+        "shapes), G5 (overflow runs) + corpus; after EVERY commit the file is decoded by the extracted Gallina decoder: "
+        "inv_check (partition of [2,np) into reachable / free-list run / free ids, separators, key order, element "
+        "bounds), contents = reference, DB::check agrees; the hook event stream (begin/alloc/free/write/publish) must "
+        "be a run of the page-lifecycle machine and of the free-list model; non-trivial = > 5 calls",
+        on_result=pl_oracle("C05"))
+
+
+def cases_c03(tier, seed):
+    n = 1 if tier == "quick" else 20
+    cases = []
+    for i in range(60 * n):
+        cases.append(("g6 seed=%d" % (seed * 1000 + i), gen.g6(seed * 1000 + i, steps=40, max_readers=4,
+                                                                nkeys=[20, 40, 80][i % 3], keylen=[30, 60, 200][(i // 3) % 3])))
+    return cases
+
+
+def check_c03(tier, seed):
+    return history_property(
+        "C03", tier, seed, cases_c03(tier, seed), dict(pagesize=1024, num_pages=6000),
+        "family G6: up to 4 simultaneous read-only transactions of different ages interleaved (single thread) with "
+        "committing and rolled-back writers that delete / overwrite (pages freed and reused within 2-3 commits); every "
+        "open reader is re-dumped in full after every step and compared with the reference snapshot taken at its begin; "
+        "hook events must be accepted by the page-lifecycle machine (release bound = oldest reader, written pages "
+        "disjoint from every registered snapshot); file pre-sized so no commit remaps; non-trivial = > 5 calls",
+        on_result=pl_oracle("C03"))
+
+
+def c06_oracle(label, text, r):
+    pl_oracle("C06")(label, text, r)
+    last = None
+    for i, c in enumerate(r["cmds"]):
+        if i >= len(r["act"]):
+            break
+        if c.startswith("filehash"):
+            a = r["act"][i]
+            if c.startswith("filehash=") and last is not None and a != last:
+                r["checks_bad"].append((i, c + "   [file bytes changed without a commit]", last, a))
+            last = a
+        elif c.startswith("commit") and r["act"][i] == "ok":
+            last = None
+    COUNTERS.setdefault("C06", {}).setdefault("file_hash_comparisons", 0)
+    COUNTERS["C06"]["file_hash_comparisons"] += sum(1 for c in r["cmds"] if c.startswith("filehash="))
+
+
+def cases_c06(tier, seed):
+    n = 1 if tier == "quick" else 15
+    cases = [("gc6 seed=%d" % (seed * 1000 + i), gen.g_c6(seed * 1000 + i)) for i in range(40 * n)]
+    cases.append(("gmis", gen.gmis(seed)))
+    for i in range(10 * n):
+        cases.append(("g1 rollback-heavy seed=%d" % (seed * 1000 + i), gen.g1(seed * 1000 + i, rollback=0.5, reopen=0.3)))
+    return cases
+
+
+def c06_strace(rep, rd, b):
+    """no write / fallocate / ftruncate reaches the database file outside commits: a second process opens an
+    existing database and runs only rolled-back writers, read-only transactions, failing calls and reopen"""
+    failed = 0
+    n = 2 if rep.tier == "quick" else 12
+    for i in range(n):
+        d = rd.sub()
+        seed = rep.seed * 100 + i
+        h = gen.H()
+        t = h.begin(True)
+        a = h.bucket("create", t, 0, gen.hx("A"))
+        for k in range(60):
+            h.emit("put %d %d %s %s" % (t, a, gen.lk(k, 100), "r200:%d" % k))
+        s = h.bucket("create", t, a, gen.hx("M"))
+        h.emit("put %d %d %s %s" % (t, s, gen.hx("k"), gen.hx("v")))
+        h.commit(t, verify=False)
+        r1 = vlib.run_history(h.text(), dict(pagesize=1024, num_pages=64), d)
+        rng = random.Random(seed)
+        h2 = gen.H()
+        for _ in range(6):
+            x = rng.random()
+            if x < 0.4:
+                t = h2.begin(True)
+                a = h2.bucket("getb", t, 0, gen.hx("A"))
+                for k in range(rng.randrange(1, 40)):
+                    h2.emit("put %d %d %s %s" % (t, a, gen.lk(rng.randrange(100), 100), "r900:%d" % k))
+                h2.emit("delb %d %d %s" % (t, a, gen.hx("M")))
+                h2.emit("delb %d 0 %s" % (t, gen.hx("A")))
+                h2.emit("drop %d" % t)
+            elif x < 0.8:
+                t = h2.begin(False)
+                a = h2.bucket("getb", t, 0, gen.hx("A"))
+                h2.emit("put %d %d %s %s" % (t, a, gen.hx("k"), gen.hx("v")))
+                h2.emit("delb %d 0 %s" % (t, gen.hx("A")))
+                h2.emit("scan %d %d" % (t, a))
+                h2.emit("commit %d" % t)
+            else:
+                h2.emit("reopen")
+        hp = os.path.join(d, "h2.txt")
+        open(hp, "w").write(h2.text())
+        dbp = os.path.join(d, "t.db")
+        before = open(dbp, "rb").read()
+        cmd = "strace -f -e trace=write,pwrite64,pwritev,writev,fallocate,ftruncate,truncate -P %s -o %s/st.txt %s run %s %s --pagesize 1024 --num-pages 64" % (
+            dbp, d, vlib.harness_bin("debug"), dbp, hp)
+        rc, out = vlib.sh(cmd, timeout=120)
+        st = open(os.path.join(d, "st.txt")).read() if os.path.exists(os.path.join(d, "st.txt")) else "strace failed"
+        calls = [l for l in st.split("\n") if "(" in l and "+++" not in l and "---" not in l]
+        after = open(dbp, "rb").read()
+        rep.count("strace %d" % i, h2.text(), True)
+        if calls or before != after or "strace failed" in st:
+            failed += 1
+            rep.violation("file touched without a commit: %d modifying syscalls on the database file, bytes %s" % (len(calls), "changed" if before != after else "unchanged"),
+                          dict(kind="strace-no-write", property="C06", history=h2.text().split("\n"), syscalls=calls[:10],
+                               how="build a 60-key database, then run this history in a fresh process under strace -P <db>"))
+    COUNTERS.setdefault("C06", {})["strace_runs_no_write_outside_commit"] = n
+    return failed
+
+
+def check_c06(tier, seed):
+    return history_property(
+        "C06", tier, seed, cases_c06(tier, seed), opts_c01,
+        "family GC6: large write transactions (puts, deletes, nested bucket deletes freeing many pages) that are "
+        "dropped; erroring calls; every mutator on read-only transactions; reopen; FNV hash of the whole file before and "
+        "after each of them must be identical; histories continue and must equal the reference run in which the "
+        "abandoned transaction never happened; Gmis; strace: a process doing only those things issues no write / "
+        "fallocate / ftruncate on the database file; non-trivial = > 5 calls",
+        on_result=c06_oracle, extra=c06_strace)
+
+
+def cases_c07(tier, seed):
+    n = 1 if tier == "quick" else 15
+    cases = [("g7 seed=%d" % (seed * 1000 + i), gen.g7(seed * 1000 + i)) for i in range(60 * n)]
+    rng = random.Random(seed + 7)
+    sub = gen.g3_subsets(12, 200, (2, 5, 9), masks=rng.sample(range(1 << 12), 40 * n), touches=(None, 2), inss=(None, "middle"))
+    cases += sub
+    return cases
+
+
+def check_c07(tier, seed):
+    return history_property(
+        "C07", tier, seed, cases_c07(tier, seed), dict(pagesize=1024, num_pages=64),
+        "family G7: committed multi-level trees (8..300-byte keys @1024), then write transactions in which after EVERY "
+        "single put / delete / bucket create / bucket delete the full read API (scan, get, get_kv, seek, range, buckets, "
+        "kv_pairs, next_int, recursive dump) is compared with the reference; G3 deletion subsets with an in-transaction "
+        "scan; non-trivial = > 5 calls",
+        on_result=snap_oracle)
+
+
+CHECKS = {"C01": check_c01, "C03": check_c03, "C05": check_c05, "C06": check_c06, "C07": check_c07, "C08": check_c08}
 
 
 def main(argv):
